@@ -4,6 +4,7 @@ pub mod c02;
 pub mod c05;
 pub mod c06;
 pub mod c09;
+pub mod c10;
 pub mod client;
 pub mod evlog;
 pub mod live;
